@@ -130,6 +130,73 @@ func rulesC18(c *Ctx) {
 			}
 		}
 	}
+	// ---- node level: SGX attestation acceptance (common/node)
+	const pkNode = "common/node"
+	if fn := c.needFn("C18.node", pkNode+".(*SGXAttestation).Verify"); fn != nil {
+		qv := CallsTo(fn, "sa.Quote.Verify", "common/sgx/quote.(*Quote).Verify", "")
+		c.successOnlyVia("C18.node", fn, qv, "the quote must verify under the runtime's policy")
+		for _, call := range qv.Calls() {
+			a := allArgs(call)
+			ok := len(a) == 3 && vstr(a[0]) == "param:sa.Quote" && vstr(a[1]) == "*param:sc.Policy" && vstr(a[2]) == "param:ts"
+			c.Check(ok, "C18.node", fname(fn)+":Quote.Verify(sc.Policy, ts)", c.P.InstrPos(call), "the attestation's own quote is verified under the constraints' policy at the given time", "quote verification is not applied to (the attestation's quote, the constraints' policy, the given time)")
+		}
+		c.SuccessRequiresCond("C18.node", fn, "sc.ContainsEnclave(verifiedQuote.Identity)", `^common/node\.\(\*SGXConstraints\)\.ContainsEnclave\(param:sc,\*common/sgx/quote\.\(\*Quote\)\.Verify\(.*\)#0\.Identity\)$`, "the verified enclave identity must be one the runtime allows")
+		c.SuccessRequiresCond("C18.node", fn, "HashRAK(rak) == reportData[:32]", `^common/crypto/hash\.\(\*Hash\)\.Equal\(&\(common/node\.HashRAK\(param:rak\)\),alloc:\*common/crypto/hash\.Hash\)$`, "the quote must commit to the node's RAK")
+		// the hash compared is decoded from the verified quote's report data
+		um := CallsTo(fn, "UnmarshalBinary", "common/crypto/hash.(*Hash).UnmarshalBinary", "")
+		okU := len(um.Calls()) == 1 && strings.HasSuffix(vstr(allArgs(um.Calls()[0])[1]), ".Verify(param:sa.Quote,*param:sc.Policy,param:ts)#0.ReportData[:32]")
+		eq := CallsTo(fn, "Equal", "common/crypto/hash.(*Hash).Equal", "")
+		if okU && len(eq.Calls()) == 1 {
+			okU = allArgs(um.Calls()[0])[0] == allArgs(eq.Calls()[0])[1]
+			if okU {
+				// filled before compared (the decode of a 32-byte slice cannot fail; its error is deliberately ignored)
+				okU = Reach(fn, nil, nil, anyOf(eq.Ins), NewCut().AddInstr(um.Ins...)) == nil
+			}
+		}
+		c.Check(okU, "C18.node", fname(fn)+":compared hash = verifiedQuote.ReportData[:32]", c.P.Pos(fn.Pos()), "the RAK hash is compared with the first 32 bytes of the verified quote's report data", "the value compared with HashRAK(rak) is not the first 32 bytes of the verified quote's report data")
+		// signed attestations: success requires the feature to be off or the attestation signature to verify
+		vs := CallsTo(fn, "verifyAttestationSignature", pkNode+".(*SGXAttestation).verifyAttestationSignature", "")
+		if vs.Empty() {
+			c.Fail("C18.node", fname(fn)+":SignedAttestations⇒signature", c.P.Pos(fn.Pos()), "verifyAttestationSignature is no longer called")
+		} else {
+			cut, _ := successCut(vs)
+			cut.AddEdges(HeldEdges(fn, `^!\*phi\(global:common/node\.emptyFeatures\|param:cfg\)\.SGX\.SignedAttestations$`)...)
+			for _, r := range Returns(fn) {
+				cut.AddEdges(phiNonNilEdges(r)...)
+			}
+			hit := Reach(fn, nil, nil, anyOf(SuccessReturns(fn)), cut)
+			c.Check(hit == nil, "C18.node", fname(fn)+":SignedAttestations⇒verifyAttestationSignature✓", c.P.InstrPos(vs.Ins[0]), "with signed attestations enabled success requires the attestation signature", "with signed attestations enabled the attestation can be accepted without its signature having been verified")
+			a := allArgs(vs.Calls()[0])
+			okA := len(a) == 7 && vstr(a[2]) == "param:rak" && vstr(a[3]) == "param:rek" && strings.HasSuffix(vstr(a[4]), "#0.ReportData") && vstr(a[5]) == "param:nodeID" && vstr(a[6]) == "param:height"
+			c.Check(okA, "C18.node", fname(fn)+":signature over (verified report data, node id, rek) under rak", c.P.InstrPos(vs.Ins[0]), "the signature check receives the verified report data, the RAK/REK and the node id", "the attestation signature check is not given the verified quote's report data / rak / rek / node id / height")
+			// the early (tail-call) success must itself come after the binding checks: every path to the call passes them
+			c.DominatedByCond("C18.node", fn, "HashRAK(rak) == reportData[:32]", `^common/crypto/hash\.\(\*Hash\)\.Equal\(&\(common/node\.HashRAK\(param:rak\)\),alloc:\*common/crypto/hash\.Hash\)$`, vs, "the RAK binding is checked before the attestation signature made with that same RAK can end verification")
+			c.DominatedByCond("C18.node", fn, "sc.ContainsEnclave(identity)", `^common/node\.\(\*SGXConstraints\)\.ContainsEnclave\(`, vs, "the enclave identity is checked before the attestation signature can end verification")
+		}
+	}
+	if fn := c.needFn("C18.node", pkNode+".(*SGXAttestation).verifyAttestationSignature"); fn != nil {
+		c.SuccessRequiresCond("C18.node", fn, "rak.Verify(ctx, HashAttestation(reportData,nodeID,sa.Height,rek), sa.Signature)", `^common/crypto/signature\.\(PublicKey\)\.Verify\(param:rak,\*global:common/node\.AttestationSignatureContext,common/node\.HashAttestation\(param:reportData,param:nodeID,\*param:sa\.Height,param:rek\),param:sa\.Signature\[:\]\)$`, "the attestation must be signed by the RAK over the report data, node id, height and REK")
+		c.SuccessRequiresCond("C18.node", fn, "sa.Height <= height", `^\*param:sa\.Height <= param:height$`, "attestations from the future are rejected")
+		c.SuccessRequiresCond("C18.node", fn, "height - sa.Height <= MaxAttestationAge", `^\(param:height - \*param:sa\.Height\) <= \*param:sc\.MaxAttestationAge$`, "stale attestations are rejected")
+	}
+	if fn := c.needFn("C18.node", pkNode+".(*CapabilityTEE).Verify"); fn != nil {
+		sv := CallsTo(fn, "sa.Verify", pkNode+".(*SGXAttestation).Verify", "")
+		c.successOnlyVia("C18.node", fn, sv, "a TEE capability verifies only through the attestation verification")
+		for _, call := range sv.Calls() {
+			a := allArgs(call)
+			ok := len(a) == 8 && vstr(a[1]) == "param:teeCfg" && vstr(a[2]) == "param:ts" && vstr(a[3]) == "param:height" && strings.Contains(vstr(a[5]), "param:c.RAK") && strings.Contains(vstr(a[6]), "param:c.REK") && vstr(a[7]) == "param:nodeID"
+			c.Check(ok, "C18.node", fname(fn)+":sa.Verify(cfg, ts, height, constraints, c.RAK, c.REK, nodeID)", c.P.InstrPos(call), "the capability's own RAK/REK and the node id are what is bound", "attestation verification is not given the capability's own RAK/REK / node id / time / height")
+		}
+		c.successOnlyVia("C18.node", fn, CallsTo(fn, "sc.ValidateBasic", pkNode+".(*SGXConstraints).ValidateBasic", ""), "constraints must be well-formed")
+		c.successOnlyVia("C18.node", fn, CallsTo(fn, "sa.ValidateBasic", pkNode+".(*SGXAttestation).ValidateBasic", ""), "attestation version must be allowed")
+	}
+	if fn := c.needFn("C18.node", "common/sgx/quote.(*Quote).Verify"); fn != nil {
+		ev := union("IAS.Open|PCS.Verify", CallsTo(fn, "", "common/sgx/ias.(*AVRBundle).Open", ""), CallsTo(fn, "", pkPCS+".(*QuoteBundle).Verify", ""))
+		ev.Name, ev.Fn = "IAS.Open✓|PCS.Verify✓", fn
+		c.successOnlyVia("C18.node", fn, ev, "a quote verifies only through the IAS or the PCS verifier")
+		c.SuccessRequiresCond("C18.node", fn, "exactly one quote kind", `^common\.ExactlyOneTrue\(`, "ambiguous quotes are rejected")
+	}
+
 	// TDX branch of Quote.Verify: success with TeeType TDX requires policy.TDX != nil and TDX.Verify✓
 	if fn := c.needFn("C18.must", pkPCS+".(*Quote).Verify"); fn != nil {
 		tv := CallsTo(fn, "policy.TDX.Verify", pkPCS+".(*TdxQuotePolicy).Verify", "")
